@@ -114,11 +114,17 @@ def refusalOf {H : Type} [DecidableEq H] (b : Bounds) (pc : PCfg) (sg : SigSchem
 
 /-! ## Runs of the processor over events -/
 
-/-- What happens to a processor: a unit is handed over by a sender, or the subprocessor of a message
-key reaches its time-out. -/
+/-- What happens to a processor: a unit is handed over by a sender, the subprocessor of a message key
+reaches its time-out, or an entry of the finalized cache expires. -/
 inductive PEvent (H : Type) where
   | unit (u : PUnit H) (sender : Bytes)
   | expire (key : MsgKey H)
+  /-- the entry of `key` in the finalized cache expires (`StaleMessageTimeout` after it was added) -/
+  | forget (key : MsgKey H)
+
+/-- The finalized cache drops `key` (its entry expired). -/
+def tprocForget {H : Type} [DecidableEq H] (tp : TProc H) (key : MsgKey H) : TProc H :=
+  { tp with core := ⟨tp.core.finalized.filter (fun k => k ≠ key), tp.core.subs⟩ }
 
 /-- The processor (with task accounting) over a list of events: final state and the outcome of every
 `unit` event, in order. -/
@@ -130,6 +136,7 @@ def tprocRunEv {H : Type} [DecidableEq H] (b : Bounds) (cfg : Cfg) (pc : PCfg) (
     let r' := tprocRunEv b cfg pc f rs sg s r.1 rest
     (r'.1, r.2 :: r'.2)
   | tp, .expire key :: rest => tprocRunEv b cfg pc f rs sg s (tprocExpire tp key) rest
+  | tp, .forget key :: rest => tprocRunEv b cfg pc f rs sg s (tprocForget tp key) rest
 
 /-- The outcomes of a sequence of units (no time-outs) with task accounting. -/
 def tprocRun {H : Type} [DecidableEq H] (b : Bounds) (cfg : Cfg) (pc : PCfg) (f : HashFns H) (rs : RS)
